@@ -38,7 +38,13 @@ import (
 	"verif/harness/hx"
 )
 
-const waitFor = 20 * time.Second
+const waitFor = 10 * time.Second
+
+// sessions that made no progress so far; after maxHangs the remaining sessions are skipped (every
+// hang costs waitFor, and the point has been made)
+var hangs int
+
+const maxHangs = 3
 
 // ---------------------------------------------------------------- recording socket (server side)
 
@@ -874,6 +880,7 @@ func runSession(o *hx.Out, cat string, cfg *sessCfg) {
 
 	desc := fmt.Sprintf("thr=%d name=%s tcp=%v chk=%s stock=%v c2s=%d s2c=%d", cfg.thr, hx.Hex([]byte(cfg.name)), cfg.tcp, cfg.chk, cfg.stock, len(cfg.c2s), len(cfg.s2c))
 	hung := func(where string) {
+		hangs++
 		o.Fail("C19.hang", "%s: no progress within %v (%s)", where, waitFor, desc)
 		csMu.Lock()
 		if clientSock != nil {
@@ -933,12 +940,18 @@ func runSession(o *hx.Out, cat string, cfg *sessCfg) {
 		if cs != nil {
 			go io.Copy(io.Discard, cs)
 		}
-		if !waitCh(srvDone) {
-			hung("server after failed join")
-			waitCh(srvDone)
+		// a server that refused the player finishes by itself; one that still waits for the client
+		// is released by closing this end (what the bot's process does when it gives up)
+		select {
+		case <-srvDone:
+		case <-time.After(500 * time.Millisecond):
 		}
 		if cs != nil {
 			cs.Close()
+		}
+		if !waitCh(srvDone) {
+			hung("server after failed join")
+			waitCh(srvDone)
 		}
 	}
 	if !waitCh(srvDone) {
@@ -1445,6 +1458,10 @@ func main() {
 				cfg.fails = genFails(r, cfg.regs, sIDs)
 				cat += ".failing-handler"
 			}
+		}
+		if hangs >= maxHangs {
+			o.Fail("C19.hang", "%d sessions made no progress: remaining %d sessions skipped", hangs, nSess-i)
+			break
 		}
 		runSession(o, cat, cfg)
 	}
